@@ -737,6 +737,19 @@ func (e *Enc) inline(fr *frame, st *State, fn *ssa.Function, args, bindings []Va
 // clause helpers
 
 func (e *Enc) evalClause(env *SpecEnv, c *Clause) (term string) {
+	t, sides := e.evalClauseSides(env, c)
+	if len(sides) > 0 {
+		return implies(and(sides...), t)
+	}
+	return t
+}
+
+func (e *Enc) evalClauseSides(env *SpecEnv, c *Clause) (term string, sides []string) {
+	var sd []string
+	env2 := *env
+	env2.side = &sd
+	env = &env2
+	defer func() { sides = dedupStrings(sd) }()
 	defer func() {
 		if r := recover(); r != nil {
 			if se, ok := r.(specError); ok {
@@ -747,18 +760,31 @@ func (e *Enc) evalClause(env *SpecEnv, c *Clause) (term string) {
 			panic(r)
 		}
 	}()
-	return env.evalBool(c.Expr)
+	term = env.evalBool(c.Expr)
+	return
 }
 
 // evalClauseAssume: a clause that cannot be evaluated contributes nothing
 // when assumed (the error is still reported).
 func (e *Enc) evalClauseAssume(env *SpecEnv, c *Clause) string {
 	n := len(e.v.specErrors)
-	t := e.evalClause(env, c)
+	t, sides := e.evalClauseSides(env, c)
 	if len(e.v.specErrors) > n {
 		return "true"
 	}
-	return t
+	return and(append(sides, t)...)
+}
+
+func dedupStrings(xs []string) []string {
+	seen := map[string]bool{}
+	var out []string
+	for _, x := range xs {
+		if !seen[x] && x != "true" {
+			seen[x] = true
+			out = append(out, x)
+		}
+	}
+	return out
 }
 
 func (e *Enc) obligeClause(env *SpecEnv, st *State, kind string, c *Clause, pos token.Pos) {
@@ -794,6 +820,8 @@ func (e *Enc) callsiteChecks(fr *frame, st *State, callee string, fn *ssa.Functi
 	if con == nil || len(con.CallSites) == 0 {
 		return
 	}
+	fr.curPos = pos
+	defer func() { fr.curPos = token.NoPos }()
 	for _, cs := range con.CallSites {
 		if !callsiteMatches(cs, callee, fn) {
 			continue
@@ -833,6 +861,8 @@ func (e *Enc) callsiteAfter(fr *frame, st *State, callee string, fn *ssa.Functio
 	if con == nil || fr.inlined {
 		return
 	}
+	fr.curPos = pos
+	defer func() { fr.curPos = token.NoPos }()
 	for _, cs := range con.CallSites {
 		if !cs.AssumeAfter || !callsiteMatches(cs, callee, fn) {
 			continue
@@ -859,6 +889,8 @@ func (e *Enc) sendSiteChecks(fr *frame, st *State, ch, val Value, cond string, p
 	if con == nil || len(con.SendSites) == 0 {
 		return
 	}
+	fr.curPos = pos
+	defer func() { fr.curPos = token.NoPos }()
 	for _, cs := range con.SendSites {
 		env := e.frameEnv(fr, st)
 		if f := strings.Fields(cs.Callee); len(f) == 2 {
@@ -1033,6 +1065,8 @@ func (e *Enc) loopEnv(fr *frame, head *ssa.BasicBlock, st *State, spec *LoopSpec
 			break
 		}
 		if phi.Comment != "" {
+			// note: the hidden index of "for i := range slice" is exposed as
+			// rangeindex (it is i-1 at the loop header, -1 before the first iteration)
 			env.vars[phi.Comment] = fr.vals[phi]
 		}
 	}
